@@ -387,4 +387,48 @@ def execSwapS (scale : Int) (outGivenIn zfo : Bool) (spf : Int) (pool : PoolSt) 
 def estimateSwap (outGivenIn zfo : Bool) (spf : Int) (pool : PoolSt) (ticks : Ticks) (specified : Int) : Option Int :=
   (computeSwap outGivenIn zfo spf 0 pool ticks specified).map fun r => if outGivenIn then r.amountOut else r.amountIn
 
+/-! ### step trace of an executed swap (additive: the loops above are untouched)
+
+The spread-reward bookkeeping (`Model/CLFees.lean`) needs, per loop iteration, the spread charge, the active
+liquidity it is divided by and the initialised tick crossed at the end of the iteration (if any).
+`swapLoopT` is `swapLoopS` that also records them; `swapLoopT_fst` (Proofs/CLFeesTrace.lean) shows that dropping the trace gives
+back `swapLoopS`, so every theorem about `swapLoop`/`swapLoopS`/`execSwapS` carries over. -/
+
+structure StepTrace where
+  charge : Int            -- spreadRewardCharge of the step (Dec)
+  liq : Int               -- swapState.liquidity the step ran against (Dec)
+  tick : Int              -- swapState.tick before the step
+  crossed : Option Int    -- `some t`: the step ended on initialised tick `t` and crossed it
+  deriving Repr, DecidableEq
+
+def loopBodyT (scale : Int) (outGivenIn zfo : Bool) (spf limit : Int) (st : SwapSt) (ahead : Ticks) :
+    Option ((SwapSt × Ticks × Bool) × StepTrace) :=
+  (stepCharge outGivenIn zfo spf limit st ahead).bind fun c =>
+    (loopBodyS scale outGivenIn zfo spf limit st ahead).map fun r =>
+      (r, ⟨c, st.pool.liquidity, st.pool.tick, if r.2.2 then ahead.head?.map (·.1) else none⟩)
+
+def swapLoopT (scale : Int) (outGivenIn zfo : Bool) (spf limit : Int) :
+    Nat → SwapSt → Ticks → Nat → Nat → Option ((SwapSt × Nat × Nat) × List StepTrace)
+  | 0, _, _, _, _ => none
+  | fuel + 1, st, ahead, steps, crossed =>
+    if st.remaining > 1 ∧ st.pool.sqrtPrice ≠ limit then
+      match loopBodyT scale outGivenIn zfo spf limit st ahead with
+      | none => none
+      | some ((st', ahead', c), tr) =>
+        (swapLoopT scale outGivenIn zfo spf limit fuel st' ahead' (steps + 1) (if c then crossed + 1 else crossed)).map
+          fun r => (r.1, tr :: r.2)
+    else some ((st, steps, crossed), [])
+
+/-- the step trace of `computeSwapS` (same setup, same fuel). -/
+def swapTrace (scale : Int) (outGivenIn zfo : Bool) (spf priceLimit : Int) (pool : PoolSt) (ticks : Ticks) (specified : Int) :
+    Option (List StepTrace) := do
+  let limit ← sqrtPriceLimit priceLimit zfo
+  if zfo then (if limit > pool.sqrtPrice ∨ limit < CL.MinSqrtPriceBigDec then none else some ())
+  else (if limit < pool.sqrtPrice ∨ limit > CL.MaxSqrtPriceBigDec then none else some ())
+  let ahead := ticksAhead zfo ticks pool.tick
+  let fuel := 2 * ticks.length + CL.swapNoProgressLimit + 8
+  let r ← swapLoopT scale outGivenIn zfo spf limit fuel
+    { remaining := specified * P18, calculated := 0, pool := pool, spreadTotal := 0, noProgress := 0 } ahead 0 0
+  some r.2
+
 end OsmoVerif.CL
